@@ -152,6 +152,10 @@ def handle : List String → String
   -- hist scheme chanarg op op ...  ->  constructor outcome | one field per op
   | "hist" :: sch :: c :: ops => Id.run do
       let some s := parseScheme sch | return "bad-op"
+      if c = "none" then  -- cls(): the channel comes later (or never)
+        match runHist (constructEmpty s) ops [] with
+        | some outs => return "|".intercalate ("ok" :: outs)
+        | none => return "bad-op"
       let some ca := parseChanArg c | return "bad-op"
       match construct s ca with
       | .error e => return "error:" ++ toString e
